@@ -906,6 +906,115 @@ func runLinkParent(id, scenario, via string, unlinkFirst bool) {
 		map[string]any{"via": via, "unlink_first": unlinkFirst, "child_terminate_reason": fmt.Sprint(term), "notes": fmt.Sprint(notes)})
 }
 
+// ---------------------------------------------------------------------------
+// a process spawns children inside its Init (neither / LinkChild / LinkParent / both) and then its Init fails:
+// the process goes away before it was ever registered. Every child that holds a link on it (LinkParent) must
+// get exactly one exit signal carrying the init error; a child without any link nothing. A LinkChild-only
+// child holds no relation itself (its parent holds one on it): whether the framework stops it is not judged.
+func runInitFail(id, scenario, fpo, mode string) {
+	if !want(id) {
+		return
+	}
+	nextCase()
+	r := &result{}
+	P, err := spawnObserver(id + "/spawner")
+	if err != nil {
+		return
+	}
+	defer node.Kill(P.pid)
+	waitQuiet([]*obs{P})
+	tm.Reset()
+	plan := &initPlan{}
+	var initErr error
+	switch mode {
+	case "error":
+		plan.Fail = errCustom
+		initErr = errCustom
+	case "wrapped":
+		plan.Fail = fmt.Errorf("c04 init wrapper: %w", errCustom)
+		initErr = plan.Fail
+	case "panic":
+		plan.Panic = true
+		initErr = gen.TerminateReasonPanic
+	}
+	for _, v := range [][2]bool{{false, false}, {true, false}, {false, true}, {true, true}} {
+		plan.Children = append(plan.Children, newChildSpec(fmt.Sprintf("%s/child-lc%v-lp%v", id, v[0], v[1]), v[0], v[1]))
+	}
+	ff, _ := actors.NewProbe(id+"/failing", observerHooks())
+	sres, ok := doSpawn(P, cmd{Factory: ff, PO: gen.ProcessOptions{LinkChild: fpo == "linkchild" || fpo == "both", LinkParent: fpo == "linkparent" || fpo == "both"}}, plan)
+	if !ok || sres.Err == nil {
+		r.incon = fmt.Sprintf("setup: spawn of the failing process returned %v (ok=%v)", sres.Err, ok)
+		finish(id, scenario, id, false, 0, r, nil)
+		return
+	}
+	ps := []*obs{P}
+	var kids []*obs
+	for _, cs := range plan.Children {
+		if cs.Err != nil {
+			r.incon = fmt.Sprint("setup: child spawn inside Init: ", cs.Err)
+			finish(id, scenario, id, false, 0, r, nil)
+			return
+		}
+		o := &obs{label: cs.Inst.Label, pid: cs.PID, inst: cs.Inst, parent: -2}
+		switch cs.linkKind() {
+		case "neither":
+			o.alive = true
+		default:
+			o.alive, o.maybe = false, true // gone, or idle for ever (structural witness); judged below
+		}
+		kids = append(kids, o)
+		ps = append(ps, o)
+		defer node.Kill(o.pid)
+	}
+	if !waitQuiet(ps) {
+		r.incon = "watchdog: no quiescence"
+		finish(id, scenario, id, false, 0, r, nil)
+		return
+	}
+	var events int64
+	judged := 0
+	det := map[string]any{"failing_process_options": fpo, "init": mode, "spawn_result": fmt.Sprint(sres.Err)}
+	for i, cs := range plan.Children {
+		o := kids[i]
+		notes, term, terminated := o.newNotes()
+		events += int64(len(notes)) + 1
+		kind := cs.linkKind()
+		det["child_"+kind] = fmt.Sprintf("terminated=%v reason=%v notes=%v", terminated, term, notes)
+		ctx := fmt.Sprintf("child spawned inside Init with %s, parent's Init failed with %q", kind, initErr)
+		switch kind {
+		case "linkparent", "both":
+			judged++
+			switch {
+			case !terminated && !isGone(o):
+				r.add("missing-notification/link/pid", "%s: the child holds a link on the parent and never got the exit signal (it is idle with an empty mailbox)", ctx)
+			case !reasonOK(initErr, term):
+				r.add("wrong-reason/link/pid", "%s: the child terminated with %q", ctx, term)
+			}
+			if len(notes) > 0 {
+				r.add("duplicate-notification/link/pid", "%s: the child also got %v", ctx, notes)
+			}
+		case "neither":
+			judged++
+			if terminated || isGone(o) || len(notes) > 0 {
+				r.add("spurious-notification/link/pid", "%s: the child holds no relation but got %v / terminated with %v", ctx, notes, term)
+			}
+		case "linkchild":
+			// not a relation of the child: not judged, except that it must not be told twice
+			if len(notes) > 0 {
+				r.add("spurious-notification/link/pid", "%s: the child got trappable notifications %v", ctx, notes)
+			}
+		}
+	}
+	pn, _, pterm := P.newNotes()
+	if len(pn) > 0 || pterm {
+		r.add("spurious-notification/link/pid", "the spawner's Spawn returned %v (nothing was created for it) but it got %v / terminated=%v", sres.Err, pn, pterm)
+	}
+	if len(r.viols) > 0 {
+		det["tap"] = tapStrings(tm.Log())
+	}
+	finish(id, scenario, fmt.Sprintf("%s/%s/%s", scenario, fpo, mode), judged == 3, events, r, det)
+}
+
 // vias and orders per target kind
 func viasOf(tk string) []string {
 	switch tk {
@@ -987,6 +1096,11 @@ func runDirectedAll() {
 			if via != "self" {
 				runLinkChild("D/linkchild/after/"+via+sfx, "directed-linkchild", "after", via, reg)
 			}
+		}
+	}
+	for _, fpo := range []string{"none", "linkchild", "linkparent", "both"} {
+		for _, mode := range []string{"error", "wrapped", "panic"} {
+			runInitFail(fmt.Sprintf("D/initfail/%s/%s", fpo, mode), "directed-initfail", fpo, mode)
 		}
 	}
 	for _, via := range []string{"kill", "exit"} {
